@@ -502,6 +502,8 @@ func TestExpectedValues(t *testing.T) {
 		{`out = string(1984) + int("-999") + float(-51)`, `out="1984-999-51"`},
 		{`a := immutable({b: 4, c: [1, 2, 3]}); a.c[1] = 5; out = a.c`, "a=immutable({b: 4, c: [1, 5, 3]}); out=[1, 5, 3]"},
 		{`x := immutable([1,2,3]); y := x[0:2]; y[0] = 9; out = x`, "out=immutable([1, 2, 3]); x=immutable([1, 2, 3]); y=[9, 2]"},
+		{`out = range(9223372036854775806, 9223372036854775807, 2)`, "out=[9223372036854775806]"},
+		{`out = range(-9223372036854775807, -9223372036854775807 - 1, 5)`, "out=[-9223372036854775807]"},
 		{`a := [1,2,3]; b := a + [4]; c := a + [5]; out = [b, c]`, "a=[1, 2, 3]; b=[1, 2, 3, 4]; c=[1, 2, 3, 5]; out=[[1, 2, 3, 4], [1, 2, 3, 5]]"},
 	}
 	for _, c := range cases {
@@ -540,6 +542,9 @@ func TestExpectedValues(t *testing.T) {
 		{`out = format("%d", 1)`, refsem.Unsupported},
 		{`m := import("math")`, refsem.Unsupported},
 		{`for { }`, refsem.Unsupported},
+		{`a := [0]; a[0] = a; out = a == a`, refsem.Unsupported},
+		{`a := [0]; a[0] = a; out = string(a)`, refsem.Unsupported},
+		{`a := [0]; a[0] = a; out = copy(a)`, refsem.Unsupported},
 	}
 	for _, c := range errCases {
 		res := refsem.Run(c.src, withOut(nil), 100000)
